@@ -662,6 +662,21 @@ def c10_s(draw, pid, tier):
     k = draw(st.integers(0, 59))
     if k == 0:
         return draw(timer_s(pid, tier))
+    if k == 3:
+        # a crowd: a few hundred clients announced in ascending (or descending) id order and all still pending, then
+        # traffic for the ones announced first (the request index must still find them)
+        conf = draw(conf_s(pid, tier))
+        n = draw(st.sampled_from([70, 140, 300]))
+        ids = list(range(1, n + 1))
+        if draw(st.booleans()):
+            ids.reverse()
+        ev = [["C", cid, "10.0.%d.%d" % (cid // 250, cid % 250), 1000 + cid] for cid in ids]
+        for cid in ids[:3] + ids[-2:]:
+            ev += [["N", cid, "h%d.example.org" % cid], ["u", cid, "id%d" % cid], ["n", cid, "N%d" % cid], ["U", cid, "user", "real"]]
+            ev.append([draw(st.sampled_from(["D", "T", "H"])), cid])
+        for cid in ids[3:40]:
+            ev.append(["D", cid])
+        return {"conf": conf, "events": ev}
     base = draw(history_s(pid, tier))
     if k in (1, 2):
         # a long history: the generated block repeated R times on shifting (and recurring) ids,
